@@ -130,7 +130,8 @@ prop('C20',
      'distinct by (final count, flags, case) signature.',
      [Stage('hist', ['harness/mlog.c'], MLOG, preset='asan', nproc=16,
             args={'quick': ['--extra', 'hist'], 'thorough': ['--extra', 'hist']},
-            needs_min={'get_line_comparisons': 100000, 'histories_passing_256_or_refusing_nice': 100}),
+            needs_min={'get_line_comparisons': 100000, 'histories_passing_256_or_refusing_nice': 100,
+                       'messages_with_empty_text': 1000}),
       Stage('wraphook', ['harness/mlog.c'], MLOG, preset='asan', nproc=16,
             args={'quick': ['--extra', 'wraphook'], 'thorough': ['--extra', 'wraphook']},
             needs_min={'histories_crossing_counter_fold(hook)': 50}),
@@ -156,12 +157,14 @@ prop('C18',
      'blanks, newlines and arbitrary bytes (four flavours); struct: texts rendered from known bytes with optional 0x, '
      'mixed case, separators from the whole isspace class (blank, tab, CR, VT, FF), blank lines and an address prefix on every line or none. Non-trivial = multi-line '
      'dump, or string ending inside a pair / after 0x / multi-line with a colon, or multi-line structured text with '
-     'prefix; distinct by content hash.',
+     'prefix; distinct by content hash. Every byte returned is traced to the two hex digits in front of the resume '
+     'pointer; every other text is placed over the previous one in a long-lived block (no memory of addresses).',
      [Stage('rt', ['harness/hex.c'], HEX, preset='asan', nproc=8,
             args={'quick': ['--extra', 'rt'], 'thorough': ['--extra', 'rt']}, needs_min={'round_trips': 1000}),
       Stage('fuzz', ['harness/hex.c'], HEX, preset='asan', nproc=16,
             args={'quick': ['--extra', 'fuzz'], 'thorough': ['--extra', 'fuzz']},
-            needs_min={'fuzz_strings_ending_after_0x': 10, 'fuzz_strings_yielding_bytes': 1000}),
+            needs_min={'fuzz_strings_ending_after_0x': 10, 'fuzz_strings_yielding_bytes': 1000,
+                       'bytes_traced_to_their_hex_pair': 10000, 'texts_placed_over_an_earlier_text': 1000}),
       Stage('struct', ['harness/hex.c'], HEX, preset='asan', nproc=16,
             args={'quick': ['--extra', 'struct'], 'thorough': ['--extra', 'struct']},
             needs_min={'structured_texts_multiline_with_prefix': 1000, 'structured_texts_with_cr_vt_ff_separators': 1000}),
@@ -314,6 +317,7 @@ prop('C14',
      [Stage('fuzz', ['harness/wav.c'], WAV, preset='asan', nproc=16,
             args={'quick': ['--extra', 'fuzz'], 'thorough': ['--extra', 'fuzz']},
             needs_min={'strings_passing_magic': 100000, 'truncations_decoded': 100000, 'helper_triples_called': 100000,
+                       'headers_whose_sub_format_tag_is_extensible_again': 1000,
                        'extreme_field_structures': 100000}),
       Stage('fuzz-clang', ['harness/wav.c'], WAV, preset='asan', cc='clang', nproc=16, tiers=('thorough',),
             args={'thorough': ['--extra', 'fuzz', '--cases', '4000000']})],
